@@ -88,6 +88,8 @@ func cmpUses(call *ssa.Call) []ssa.Value {
 }
 
 func runC12(c *Ctx, r *Report) {
+	r.Rule("C12.R7", "the type gate of == is an equivalence: object.TypeEqual, evaluated by interpreting its SSA (and IsIntType's) on every pair and triple of object.Type constants, is reflexive, symmetric and transitive")
+	c.checkTypeEqualIsEquivalence(r, "C12.R7")
 	r.Rule("C12.R1", "single comparator, consistent thresholds: <, <=, >, >=, min, max, sort (Less) and map key search (CompareKeys) all call object.Cmp with operands in source order and interpret its result by predicates whose truth sets on {-1,0,1} are {-1}, {-1,0}, {1}, {0,1} (strict min/max/Less: {-1}/{1}/{-1}); == and != go through Equals")
 	r.Rule("C12.R2", "three-valued and antisymmetric by construction: every return of Cmp is a constant in {-1,0,1}, a cmp.Compare or a recursive Cmp; their first operands derive from Cmp's first parameter and second from the second; each `if L<R return -1` has the mirrored `if L>R return 1`")
 	r.Rule("C12.R6", "no overflowing conversion in the comparator: a float64 -> integer conversion in Cmp or in a function whose result Cmp returns is dominated by comparisons that confine the float to [-2^63, 2^63) (the upper bound strictly)")
